@@ -1,6 +1,7 @@
 package c20
 
 import (
+	"crypto/sha256"
 	"encoding/xml"
 	"fmt"
 	"os"
@@ -336,7 +337,22 @@ func newWorld(c caseA) (*world, error) {
 		sb.Remove()
 		return nil, err
 	}
+	plantLeftovers(sb, fx)
 	return &world{sb: sb, eng: eng, fx: fx, t: eng}, nil
+}
+
+// plantLeftovers puts onto the storage what a gateway killed in the middle of its work leaves behind (C11 shows these
+// states are reached): the staging directory of a key's multipart uploads with no upload left in it, and an upload
+// directory without any part. Requests that look into them get an answer like any other.
+func plantLeftovers(sb *gw.Sandbox, fx *cat.Fixture) {
+	for _, k := range []string{cat.KeyObj, cat.KeyNested} {
+		d := filepath.Join(sb.Root, fx.BktA, ".sgwtmp", "multipart", fmt.Sprintf("%x", sha256.Sum256([]byte(k))))
+		os.MkdirAll(d, 0o777)
+		os.Chmod(d, 0o777)
+		if k == cat.KeyNested {
+			os.MkdirAll(filepath.Join(d, "0123456789-leftover-upload"), 0o777)
+		}
+	}
 }
 
 var procW = map[string]*world{}
@@ -376,6 +392,7 @@ func procWorld(c caseA) (*world, error) {
 		}
 		return nil, fmt.Errorf("NOT SERVING: the gateway (flags --access-log %s, process alive: %v) does not get through the valid requests that set the scene: %v; its output ends: %q", logFile, alive, err, out)
 	}
+	plantLeftovers(sb, fx)
 	w := &world{sb: sb, proc: p, fx: fx, t: p}
 	procW[key] = w
 	return w, nil
